@@ -50,4 +50,57 @@ theorem dft2_smul (f : Arr ℂ) (c : ℂ) (αr αc : ℝ) (M N : ℤ) (shr shc :
   refine sum_congr rfl fun y _ => sum_congr rfl fun x _ => ?_
   ring
 
+open ComplexConjugate in
+/-- **inversion on a full period.** With `α = (1/m, 1/n)`, output shape = input shape, zero shift and offset and the
+*same* normalisation flag on both sides (either value), `idft2 (dft2 f) = f` at every sample. -/
+theorem idft2_dft2_full_period (f : Arr ℂ) (m n : ℕ) (hm : f.s0 = m) (hn : f.s1 = n) (hm0 : 0 < m) (hn0 : 0 < n)
+    (unitary : Bool) (x y : ℕ) (hx : x < m) (hy : y < n) :
+    (idft2 (dft2 f (1 / (m : ℝ)) (1 / (n : ℝ)) m n 0 0 0 0 unitary) (1 / (m : ℝ)) (1 / (n : ℝ)) m n 0 0 unitary).get x y
+      = f.get x y := by
+  rw [idft2_get_eq]
+  simp only [dft2_s0, dft2_s1, Int.toNat_natCast, dft2_get_eq]
+  rw [pull_const]
+  unfold dft2Sum
+  simp only [hm, hn, Int.toNat_natCast]
+  simp only [ker_symm _ _ _ (x : ℤ), ker_symm _ _ _ (y : ℤ)]
+  rw [inv2 m n m n (fun x u => ker (1 / m) m m 0 0 x u) (fun y v => ker (1 / n) n n 0 0 y v)
+    (orth_ker m m hm0 le_rfl m 0 0) (orth_ker n n hn0 le_rfl n 0 0) (fun x y => f.get x y) x y hx hy]
+  have hm' : (m : ℂ) ≠ 0 := by exact_mod_cast hm0.ne'
+  have hn' : (n : ℂ) ≠ 0 := by exact_mod_cast hn0.ne'
+  cases unitary
+  · simp only [Bool.false_eq_true, if_false]; push_cast; field_simp
+  · simp only [if_true]
+    rw [← mul_assoc, ← Complex.ofReal_mul, sqrt_abs_inv_mul_self m n hm0 hn0]
+    push_cast; field_simp
+
+/-- **Parseval, forward.** Under the unitary flag, over one full period (`α = (1/m, 1/n)`, output shape = input shape; any
+integer offsets and real shifts) `Σ|dft2 f|² = Σ|f|²`. -/
+theorem dft2_parseval_full_period (f : Arr ℂ) (m n : ℕ) (hm : f.s0 = m) (hn : f.s1 = n) (hm0 : 0 < m) (hn0 : 0 < n)
+    (shr shc : ℝ) (offr offc : ℤ) :
+    ∑ u ∈ range m, ∑ v ∈ range n,
+        Complex.normSq ((dft2 f (1 / (m : ℝ)) (1 / (n : ℝ)) m n shr shc offr offc true).get u v)
+      = ∑ x ∈ range m, ∑ y ∈ range n, Complex.normSq (f.get x y) :=
+  dft2_energy f m n hm hn m n hm0 hn0 le_rfl le_rfl shr shc offr offc
+
+open ComplexConjugate in
+/-- **Parseval, inverse.** Under the unitary flag the inverse transform over one full period conserves energy just as the
+forward transform does: `Σ|idft2 F|² = Σ|F|²` (any real shifts). -/
+theorem idft2_parseval_full_period (F : Arr ℂ) (m n : ℕ) (hm : F.s0 = m) (hn : F.s1 = n) (hm0 : 0 < m) (hn0 : 0 < n)
+    (shr shc : ℝ) :
+    ∑ x ∈ range m, ∑ y ∈ range n,
+        Complex.normSq ((idft2 F (1 / (m : ℝ)) (1 / (n : ℝ)) m n shr shc true).get x y)
+      = ∑ u ∈ range m, ∑ v ∈ range n, Complex.normSq (F.get u v) := by
+  simp only [idft2_get_eq, if_true, Complex.normSq_mul, Complex.normSq_ofReal, sqrt_abs_inv_mul_self m n hm0 hn0, ← mul_sum]
+  simp only [hm, hn, Int.toNat_natCast]
+  have h := parseval2 m n m n (fun u i => conj (ker (1 / m) m m 0 shr u i)) (fun v j => conj (ker (1 / n) n n 0 shc v j))
+    (orth_ker m m hm0 le_rfl m 0 shr).conj (orth_ker n n hn0 le_rfl n 0 shc).conj (fun u v => F.get u v)
+  rw [h]
+  have hm' : (m : ℝ) ≠ 0 := by exact_mod_cast hm0.ne'
+  have hn' : (n : ℝ) ≠ 0 := by exact_mod_cast hn0.ne'
+  field_simp
+
+/-- the hypotheses of the full-period theorems are satisfiable by a non-trivial array -/
+example : ∃ (f : Arr ℂ) (m n : ℕ), f.s0 = m ∧ f.s1 = n ∧ 0 < m ∧ 0 < n ∧ m ≠ n ∧ f.get 1 2 ≠ f.get 0 0 :=
+  ⟨⟨2, 3, fun i j => (i + 2 * j : ℂ)⟩, 2, 3, rfl, rfl, by norm_num, by norm_num, by norm_num, by norm_num⟩
+
 end Lentil.C01
